@@ -30,7 +30,7 @@ class C13(Check):
     reference_models = ["write monitor: event log of the simulated disk + sha256 of the image before/after"]
 
     def budget(self, tier):
-        return {"runs": 900, "wall_s": 90} if tier == "quick" else {"runs": 20000, "wall_s": 1200}
+        return {"runs": 900, "wall_s": 90} if tier == "quick" else {"runs": 10000, "wall_s": 1500}
 
     def generate(self, rng, tier):
         kind = rng.weighted([("clean", 2), ("journal", 4), ("orphan", 3), ("mmp", 1), ("faults", 5),
